@@ -2,7 +2,7 @@
    Only statements; proofs by `exact`.  Reader = MFramer.ReadFrame as configured by the source switches
    of Gen/H2Src.v; read loop = stream/http2 Dispatch over codec Decode. *)
 From Coq Require Import List NArith Bool.
-From MV Require Import Lib.HBits Lib.HSeg Gen.H2Src Model.Hpack Model.H2Frame Proofs.H2FrameStable.
+From MV Require Import Lib.HBits Lib.HSeg Gen.H2Src Model.Hpack Model.H2Frame Model.H2ReadHint Proofs.H2FrameStable.
 (* the comparison functions of the correspondence shards are built together with this file *)
 From MV Require Model.HpackCases Model.H2FrameCases.
 Import ListNotations.
@@ -60,3 +60,20 @@ Example c07_h2_example :
   c_out (fold_left feed [firstn 4 s; firstn 20 (skipn 4 s); skipn 24 s] c_init) = c_out (feed c_init s) /\
   c_buf (feed c_init (firstn 29 s)) = firstn 12 wu.
 Proof. cbn zeta. repeat split; vm_compute; reflexivity. Qed.
+
+(* Between two frames the real reader carries nothing but the buffer (read from mhttp2.go on every run: type MFramer has
+   no field of its own and ReadFrame / readMetaFrame assign only errDetail, lastFrame, lastHeaderStream) - which is what
+   the reader the theorems above are about (read_frame / feed) does: its state is the framer state of Model/H2Frame.v. *)
+Theorem c07_h2_framer_carries_only_the_buffer : h2_framer_no_cross_frame_state = true.
+Proof. exact (eq_refl true). Qed.
+
+(* a reader that keeps a "bytes needed" hint across frames and does not reset it when it SKIPS a stream-error frame (the
+   shape of seed C07-g) is not segmentation independent: a 6-byte stream-error frame [4;1;...] followed by the complete
+   3-byte frame [1;0;9] - in one read both come out; with the first read ending inside the first frame the second frame
+   stays in the buffer; resetting the hint on the skip path too gives the whole-delivery result *)
+Example c07_h2_stale_hint_refuted :
+  let s := [4; 1; 7; 7; 7; 7; 1; 0; 9] in
+  h_out (hint_run false [s]) = [HvStreamErr; HvFrame [9]] /\ h_buf (hint_run false [s]) = [] /\
+  h_out (hint_run false [firstn 3 s; skipn 3 s]) = [HvStreamErr] /\ h_buf (hint_run false [firstn 3 s; skipn 3 s]) = [1; 0; 9] /\
+  h_out (hint_run true [firstn 3 s; skipn 3 s]) = [HvStreamErr; HvFrame [9]] /\ h_buf (hint_run true [firstn 3 s; skipn 3 s]) = [].
+Proof. vm_compute. repeat split; reflexivity. Qed.
